@@ -75,14 +75,14 @@ def collect_programs(ctx):
 
     def scale(q, t):
         return max(1, int(ctx.scale(q, t) * frac))
-    ncf = scale(150, 2000)
+    ncf = scale(120, 2000)
     for i in range(ncf):
         mode = ["restricted", "legal", "restricted", "any", "legal"][i % 5]
         src, meta = L.gen_cf_program(rng.fork("cf%d" % i), mode)
         progs.append(Prog("cf-%s/%d" % (mode, i), src, "cf-" + mode, meta=meta))
     # the shared typed generator (well-typed compute programs: expressions of every core type, helper
     # functions, pointers, structs, matrices, workgroup variables, atomics on request)
-    nt = scale(100, 1500)
+    nt = scale(80, 1500)
     for i in range(nt):
         opts = {"atomics": i % 3 == 0}
         for attempt in range(4):
@@ -94,7 +94,7 @@ def collect_programs(ctx):
         else:
             continue
         progs.append(Prog("typed/%d" % i, src, "typed"))
-    nb = scale(60, 800)
+    nb = scale(45, 800)
     for i in range(nb):
         mode = ["legal", "legal", "any"][i % 3]
         src, meta = L.gen_binding_program(rng.fork("bind%d" % i), mode)
